@@ -89,7 +89,6 @@ ReadIntsRec(f, pos, n, acc) ==
    ELSE IF pos > Len(f) THEN [vals |-> acc, next |-> 0]      \* (the code would spin at end of file)
    ELSE ReadIntsRec(f, pos + 1, n, acc \o f[pos])
 ReadInts(f, pos, n) == ReadIntsRec(f, pos, n, <<>>)
-Divides(d, x) == d > 0 /\ x % d = 0
 LineAt(f, p) == IF p >= 1 /\ p <= Len(f) THEN f[p] ELSE <<>>     \* readline() at end of file gives ''
 Tok(l, k) == IF k <= Len(l) THEN l[k] ELSE 0
 
